@@ -7,7 +7,7 @@
    quantified everywhere: the appender's 1024 is one instance. *)
 From Coq Require Import List Arith NArith Bool.
 Import ListNotations.
-From L4 Require Import Common.Sched Model.BufW Model.FileApp Proofs.FileApp Proofs.FileAppTrace.
+From L4 Require Import Common.Sched Model.BufW Model.FileApp Proofs.FileApp Proofs.FileAppTrace Proofs.FileAppFaults.
 
 (* Once append returns Ok the complete record is on disk (readable by anyone) and
    nothing is left in the private buffer - for every oracle (short writes), every
@@ -260,3 +260,50 @@ Example C04_example_trace :
   check_trace [7%N] [[[1;2];[3]]; [[4;5]]]%N [7;4;5;1;2;3]%N = Some [1;0;0]
   /\ check_trace [7%N] [[[1;2];[3]]; [[4;5]]]%N [7;4;1;2;5;3]%N = None.
 Proof. vm_compute. split; reflexivity. Qed.
+
+(* ---- under OS errors: ANY script of the file's answers (disk full for a while, EIO, short writes) ---- *)
+
+(* A record whose append returned Ok is on disk, whole, right behind everything the appender had taken before it - and
+   it stays there through every later call, whether those calls fail or not. *)
+Theorem C04_acknowledged_record_stays :
+  forall c st rs1 r rs2 st1,
+    append c (appends c st rs1) r = Ok st1 ->
+    exists post,
+      disk (appends c st (rs1 ++ r :: rs2)) =
+      disk (appends c st rs1) ++ buf (appends c st rs1) ++ rec_bytes r ++ post.
+Proof. exact acknowledged_record_stays. Qed.
+Print Assumptions C04_acknowledged_record_stays.
+
+(* Two acknowledged records are in the file in call order, without overlapping, whatever happened around them. *)
+Theorem C04_acknowledged_records_in_order :
+  forall c st rs1 r1 rs2 r2 rs3 s1 s2,
+    append c (appends c st rs1) r1 = Ok s1 ->
+    append c (appends c st (rs1 ++ r1 :: rs2)) r2 = Ok s2 ->
+    exists a b d,
+      disk (appends c st (rs1 ++ r1 :: rs2 ++ r2 :: rs3)) = a ++ rec_bytes r1 ++ b ++ rec_bytes r2 ++ d.
+Proof. exact acknowledged_records_in_order. Qed.
+Print Assumptions C04_acknowledged_records_in_order.
+
+(* Nothing the appender has taken is silently dropped: after any history the file followed by the private buffer is
+   what was there before followed by one piece per call, each piece a prefix of that call's record (the whole record
+   when the call was acknowledged: C04_append_flushes_whole_record). *)
+Theorem C04_history_under_os_errors :
+  forall c rs st,
+    exists ps, Forall2 (fun p r => prefix p (rec_bytes r)) ps rs /\
+      disk (appends c st rs) ++ buf (appends c st rs) = disk st ++ buf st ++ concat ps.
+Proof. exact appends_keep. Qed.
+Print Assumptions C04_history_under_os_errors.
+
+(* the disk accepts 2 bytes, then fails twice, then works again; capacity 4: the first record (3 bytes) stays in the
+   buffer and its flush fails after 2 bytes (Err), the second call's flush fails too (Err), the third succeeds and
+   everything taken so far is in the file in order *)
+Example C04_example_full_disk :
+  let o := [Acc 2; IoErr; IoErr] in
+  let s0 := mkF [9%N] [] o in
+  let r1 := append 4 s0 [[1;2;3]]%N in
+  let r2 := append 4 (res_state r1) [[4]]%N in
+  let r3 := append 4 (res_state r2) [[5;6]]%N in
+  (match r1 with Err _ => true | Ok _ => false end) = true /\
+  (match r2 with Err _ => true | Ok _ => false end) = true /\
+  (match r3 with Ok s => disk s | Err _ => [] end) = [9;1;2;3;4;5;6]%N.
+Proof. vm_compute. repeat split; reflexivity. Qed.
